@@ -172,6 +172,11 @@ func (s *SnippetWriter) Append(r io.Reader) error {
 		return nil
 	}
 	_, err := io.Copy(s.w, r)
+	if err != nil {
+		// Like Do(): remember the failure, so that later calls are ignored
+		// and Error() reports it.
+		s.err = err
+	}
 	return err
 }
 
